@@ -442,7 +442,7 @@ func energySuite(seed uint64, tier, outDir string) (*core.Result, error) {
 	}
 	nCT, filesPer := 10, 12
 	if tier == "thorough" {
-		nCT, filesPer = 120, 40
+		nCT, filesPer = 200, 200
 	}
 	for i := 0; i < nCT; i++ { // generated calibration files
 		pool := []string{"1000", "-2000", "1", "0", "-0", "4", "0.5", "1e3", "-7.25", "abc", "", " 3", "NaN", "Inf", "1e999", "3,4", "0x10", "1_0"}
